@@ -109,13 +109,20 @@ def laterChunk (env : DEnv) (s : DState) (reg : Reg) (caller : SessKey) (req : N
   dispatch env { s with d := s.d.setInv v } caller req v.callee iid.req v (routerTimeout env reg v.callee v.options)
     (.invocation iid.req reg.id [(OptProgress, .bool (opts.optFlag OptProgress))] args kw)
 
+/-- the answer to a CALL that resolves to no callee: a later chunk of a pending call ends that call
+    (through `syncCancel`, hence at most once), any other CALL is refused -/
+def noProc (env : DEnv) (s : DState) (caller : SessKey) (req : Nat) : DOut :=
+  if (s.d.byCall? ⟨caller, req⟩).isSome then
+    syncCancel env s caller req CancelModeKillNoWait ErrNoSuchProcedure []
+  else { st := s, sends := [⟨caller, errMsg tCALL req ErrNoSuchProcedure⟩] }
+
 theorem syncCall_eq (env : DEnv) (s : DState) (caller : SessKey) (req : Nat) (opts : Dict) (proc : String)
     (args : List WVal) (kw : Dict) (rnd : Nat) :
     syncCall env s caller req opts proc args kw rnd =
       match s.d.matchProcedure proc with
-      | none => { st := s, sends := [⟨caller, errMsg tCALL req ErrNoSuchProcedure⟩] }
+      | none => noProc env s caller req
       | some reg =>
-        if reg.callees.isEmpty then { st := s, sends := [⟨caller, errMsg tCALL req ErrNoSuchProcedure⟩] }
+        if reg.callees.isEmpty then noProc env s caller req
         else if opts.optFlag OptProgress && !hasFeat env caller RoleCaller FeatureProgCallInvocations then
           { st := s, sends := [⟨caller, abortMsg "<text>"⟩], aborts := [caller] }
         else
@@ -134,11 +141,11 @@ theorem syncCall_eq (env : DEnv) (s : DState) (caller : SessKey) (req : Nat) (op
   | some reg =>
     simp only []
     by_cases h1 : reg.callees.isEmpty = true
-    · simp only [h1, if_true]
-    · simp only [h1]
+    · rw [if_pos h1, if_pos h1]; rfl
+    · rw [if_neg h1, if_neg h1]
       by_cases h2 : (opts.optFlag OptProgress && !hasFeat env caller RoleCaller FeatureProgCallInvocations) = true
-      · simp only [h2, if_true]
-      · simp only [h2]
+      · rw [if_pos h2, if_pos h2]
+      · rw [if_neg h2, if_neg h2]
         cases s.d.byCall? ⟨caller, req⟩ with
         | none =>
           simp only []
